@@ -1,0 +1,64 @@
+// Copyright 2021 TiKV Project Authors.
+//
+// Licensed under the Apache License, Version 2.0 (the "License");
+// you may not use this file except in compliance with the License.
+// You may obtain a copy of the License at
+//
+//     http://www.apache.org/licenses/LICENSE-2.0
+//
+// Unless required by applicable law or agreed to in writing, software
+// distributed under the License is distributed on an "AS IS" BASIS,
+// See the License for the specific language governing permissions and
+// limitations under the License.
+
+//go:build verif
+// +build verif
+
+// Machine-checked contracts for core region accessors (checked by /verif/govc; comment-only file).
+package core
+
+//@ pure nonnil(ps []*metapb.Peer) = forall i :: 0 <= i && i < len(ps) ==> ps[i] != nil
+// The cached description of a region never contains nil peers.
+//@ pure wfRegion(r *RegionInfo) = r != nil && r.meta != nil && nonnil(r.meta.Peers) && nonnil(r.voters) && nonnil(r.learners) && nonnil(r.pendingPeers)
+//@ pure pstore(p *metapb.Peer) = ite(p == nil, 0, p.StoreId)
+//@ pure pid(p *metapb.Peer) = ite(p == nil, 0, p.Id)
+//@ pure prole(p *metapb.Peer) = ite(p == nil, 0, p.Role)
+// res is the first peer of ps placed on store storeID (nil if there is none)
+//@ pure firstOnStore(ps []*metapb.Peer, storeID uint64, res *metapb.Peer) = (res == nil && (forall i :: 0 <= i && i < len(ps) ==> pstore(ps[i]) != storeID)) || (res != nil && pstore(res) == storeID && (exists i :: 0 <= i && i < len(ps) && ps[i] == res && (forall j :: 0 <= j && j < i ==> pstore(ps[j]) != storeID)))
+// res is the first peer of ps with id peerID (nil if there is none)
+//@ pure firstWithID(ps []*metapb.Peer, peerID uint64, res *metapb.Peer) = (res == nil && (forall i :: 0 <= i && i < len(ps) ==> pid(ps[i]) != peerID)) || (res != nil && pid(res) == peerID && (exists i :: 0 <= i && i < len(ps) && ps[i] == res && (forall j :: 0 <= j && j < i ==> pid(ps[j]) != peerID)))
+
+//@ func (*RegionInfo).GetStorePeer
+//@   props C09 C08
+//@   requires r.meta != nil && nonnil(r.meta.Peers)
+//@   ensures firstOnStore(r.meta.Peers, storeID, result)
+//@   loop 1 invariant forall j :: 0 <= j && j <= rangeindex ==> pstore(r.meta.Peers[j]) != storeID
+//@   modifies nothing
+
+//@ func (*RegionInfo).GetStoreVoter
+//@   props C09 C08
+//@   requires nonnil(r.voters)
+//@   ensures firstOnStore(r.voters, storeID, result)
+//@   loop 1 invariant forall j :: 0 <= j && j <= rangeindex ==> pstore(r.voters[j]) != storeID
+//@   modifies nothing
+
+//@ func (*RegionInfo).GetStoreLearner
+//@   props C09 C08
+//@   requires nonnil(r.learners)
+//@   ensures firstOnStore(r.learners, storeID, result)
+//@   loop 1 invariant forall j :: 0 <= j && j <= rangeindex ==> pstore(r.learners[j]) != storeID
+//@   modifies nothing
+
+//@ func (*RegionInfo).GetPeer
+//@   props C09 C08
+//@   requires r.meta != nil && nonnil(r.meta.Peers)
+//@   ensures firstWithID(r.meta.Peers, peerID, result)
+//@   loop 1 invariant forall j :: 0 <= j && j <= rangeindex ==> pid(r.meta.Peers[j]) != peerID
+//@   modifies nothing
+
+//@ func (*RegionInfo).GetPendingPeer
+//@   props C09 C08
+//@   requires nonnil(r.pendingPeers)
+//@   ensures firstWithID(r.pendingPeers, peerID, result)
+//@   loop 1 invariant forall j :: 0 <= j && j <= rangeindex ==> pid(r.pendingPeers[j]) != peerID
+//@   modifies nothing
